@@ -103,6 +103,8 @@ var connTemplates = []tmpl{
 	{"renew-write-keeps-read", false, []planOp{{0, "sd", 3}, {1, "swd", 6}}},
 	{"clear-then-set-again", false, []planOp{{0, "srd", 2}, {1, "srd", zeroTime}, {3, "srd", 4}}},
 	{"nothing-set", false, []planOp{{1, "wsmall", 0}}},
+	{"write-autocleared-by-writev", false, []planOp{{0, "swd", 2}, {1, "wvsmall", 0}}},
+	{"write-deadline-survives-queued-writev", true, []planOp{{0, "wbig", 0}, {1, "swd", 3}, {2, "wvsmall", 0}}},
 }
 
 // planned outcome of a conn history (used only to shape the generation: quiet tails after the expected close)
@@ -133,7 +135,7 @@ func plannedClose2(ops []planOp, noRead bool) int {
 			r = d
 		case "swd":
 			w = d
-		case "wsmall":
+		case "wsmall", "wvsmall":
 			if !backlog {
 				w = -1
 			}
@@ -182,9 +184,9 @@ func genConn(rnd *rand.Rand, id int, seed int64) *plan {
 			o.Op = "srd"
 		case k < 68:
 			o.Op = "swd"
-		case k < 82:
+		case k < 80:
 			o.Op = "wsmall"
-		case k < 90:
+		case k < 89:
 			if p.NoRead && !big {
 				o.Op = "wbig"
 				big = true
@@ -195,11 +197,17 @@ func genConn(rnd *rand.Rand, id int, seed int64) *plan {
 			if p.NoRead && big && !drained {
 				o.Op = "drain"
 				drained = true
+			} else if p.NoRead && !big {
+				o.Op = "wbig"
+				big = true
 			} else {
 				o.Op = "srd"
 			}
 		default:
 			o.Op = "close"
+		}
+		if o.Op == "wsmall" && rnd.Intn(3) == 0 {
+			o.Op = "wvsmall"
 		}
 		if o.Op == "sd" || o.Op == "srd" || o.Op == "swd" {
 			q := rnd.Intn(100)
@@ -214,7 +222,7 @@ func genConn(rnd *rand.Rand, id int, seed int64) *plan {
 		}
 		p.Ops = append(p.Ops, o)
 		// sometimes a second operation in the same slot (read and write deadlines set back to back)
-		if rnd.Intn(8) == 0 && (o.Op == "srd" || o.Op == "swd") {
+		if rnd.Intn(8) == 0 && (o.Op == "srd" || o.Op == "swd") && (o.Dl == zeroTime || o.Dl >= s) {
 			o2 := planOp{Slot: s, Op: map[string]string{"srd": "swd", "swd": "srd"}[o.Op], Dl: s + rnd.Intn(4)}
 			p.Ops = append(p.Ops, o2)
 		}
@@ -243,10 +251,10 @@ func genHTTP(rnd *rand.Rand, id int, seed int64, ka2, wt2 int) *plan {
 }
 
 // websocket: connect, upgrade before the http keep-alive expires, then messages / pings
-func genWS(rnd *rand.Rand, id int, seed int64, ka2, wska2 int) *plan {
-	p := &plan{Part: "ws", ID: id, Seed: seed, KA2: ka2, WSKA2: wska2}
+func genWS(rnd *rand.Rand, id int, seed int64, ka2, wt2, wska2 int) *plan {
+	p := &plan{Part: "ws", ID: id, Seed: seed, KA2: ka2, WT2: wt2, WSKA2: wska2}
 	p.Ops = append(p.Ops, planOp{Slot: 0, Op: "connect"})
-	up := rnd.Intn((ka2 - 1) / 2 + 1)
+	up := rnd.Intn((ka2-1)/2 + 1)
 	p.Ops = append(p.Ops, planOp{Slot: up, Op: "upgrade"})
 	last := up
 	n := rnd.Intn(4)
